@@ -561,7 +561,8 @@ class NoUndefinedVariablesChecker(VariablesCollector):
             defined = self._op_defined_variables[op]
             for fragment in deduplicate(fragments):
                 fragment_vars = self._fragment_variables[fragment]
-                for var, (node, _, _) in fragment_vars.items():
+                for var, usages in fragment_vars.items():
+                    node = usages[-1][0]
                     if var not in defined:
                         self.add_error(
                             'Variable "$%s" from fragment "%s" is not defined '
@@ -576,7 +577,8 @@ class NoUndefinedVariablesChecker(VariablesCollector):
 
         for op, variables in self._op_variables.items():
             defined = self._op_defined_variables[op]
-            for var, (node, _, _) in variables.items():
+            for var, usages in variables.items():
+                node = usages[-1][0]
                 if var not in defined:
                     self.add_error(
                         'Variable "$%s" is not defined on %s operation'
@@ -873,12 +875,14 @@ class VariablesInAllowedPositionChecker(VariablesCollector):
     Variables passed to field arguments conform to type """
 
     def iter_op_variables(self, op):
-        for usage in self._op_variables[op].items():
-            yield usage
+        for varname, usages in self._op_variables[op].items():
+            for usage in usages:
+                yield varname, usage
         for fragment in self._op_fragments[op]:
             frament_vars = self._fragment_variables[fragment].items()
-            for usage in frament_vars:
-                yield usage
+            for varname, usages in frament_vars:
+                for usage in usages:
+                    yield varname, usage
 
     def leave_document(self, node):
         super(VariablesInAllowedPositionChecker, self).leave_document(node)
